@@ -181,6 +181,43 @@ def run_case(c, rng):
         else:
             c.count('epanet_errors')
     c.nontrivial = nontrivial
+    # The model is edited after it has been simulated (pump curve re-calibrated through Curve.points, a pipe's roughness, a
+    # base demand), reset, and compared with an equal model that never ran (rebuilt from the edited model's dictionary): whatever
+    # a run caches on the model must not outlive an edit.  Side stream seeded by the case.
+    if spec is not None:
+        import random as _random
+        side2 = _random.Random(c.index * 49979687 + len(spec['pipes']) * 7 + len(spec['pumps']))
+        if side2.random() < 0.5:
+            edits = []
+            heads = [p_ for p_ in spec['pumps'] if p_['type'] == 'HEAD']
+            if heads and side2.random() < 0.8:
+                cur = wn.get_curve(side2.choice(heads)['curve'])
+                f = side2.choice([0.8, 0.9, 1.15, 1.3])
+                cur.points = [(q_, h_ * f) for q_, h_ in cur.points]
+                edits.append('curve %s heads x %s' % (cur.name, f))
+            if spec['pipes'] and side2.random() < 0.6:
+                pn = side2.choice(spec['pipes'])['name']
+                wn.get_link(pn).roughness = wn.get_link(pn).roughness * side2.choice([0.6, 0.8, 1.25])
+                edits.append('roughness of %s' % pn)
+            if side2.random() < 0.6:
+                jn = side2.choice(spec['junctions'])['name']
+                dl = wn.get_node(jn).demand_timeseries_list
+                if len(dl):
+                    dl[0].base_value = dl[0].base_value * 1.4 + 0.0005
+                    edits.append('base demand of %s' % jn)
+            if edits:
+                wn.reset_initial_values()
+                try:
+                    twin2 = wntr.network.from_dict(json.loads(json.dumps(wn.to_dict())))
+                except Exception:
+                    twin2 = None      # C13's subject
+                if twin2 is not None:
+                    t1 = simobs.run_wntr(wn, deep=False)
+                    t2 = simobs.run_wntr(twin2, deep=False)
+                    if t1.exception is None and t2.exception is None and simobs.converged(t1) and simobs.converged(t2):
+                        c.count('edited_model_vs_equal_copy_compared')
+                        compare(c, t2.results, t1.results, 'model edited after a run (%s) and reset vs an equal model rebuilt from its dictionary' % ', '.join(edits),
+                                sample, 'edited_model_differs_from_equal_copy')
 
 
 def compare_epanet(c, r0, r1, label, sample):
